@@ -2,6 +2,9 @@
    One case per input line (op TAB arg TAB ...), one canonical result line per case. *)
 open Model
 
+(* the extracted model defines its own (Coq) string type; restore OCaml's *)
+type string = String.t
+
 (* ---- N <-> int (extracted N is a datatype; no Extract Constant is used) ---- *)
 let rec pos_of_int (i : int) : positive =
   if i = 1 then XH
@@ -244,6 +247,11 @@ let run (line : string) : string =
   | "mem" -> show_bool (mem (parse_doc a.(1)) (parse_shape a.(2)))
   | "cmp" -> show_cmp (cmp (parse_shape a.(1)) (parse_shape a.(2)))
   | "wf" -> show_bool (wf (parse_shape a.(1)))
+  | "display" -> "TEXT " ^ hex_of_ints (List.map int_of_n (display (parse_shape a.(1))))
+  | "ser" -> "TEXT " ^ hex_of_ints (List.map int_of_n (ser_text (parse_shape a.(1))))
+  | "roundtrip" -> (
+      match de (ser (parse_shape a.(1))) with Some s -> "OK " ^ shape_str s | None -> "ERR De")
+  | "ident_keys" -> show_bool (ident_keys (parse_shape a.(1)))
   | "no_null_array" -> show_bool (no_null_array (parse_shape a.(1)))
   | "oneof_free" -> show_bool (oneof_free (parse_shape a.(1)))
   | "nodup" -> show_bool (nodup_keys (parse_doc a.(1)))
